@@ -79,7 +79,14 @@ func addSQLFeatures(g *gen) {
 			default:
 				for _, n := range g.nameds {
 					if n.Name == "Id"+target.Name {
-						s.Fields = append(s.Fields, Field{Name: g.uniq("Fk"), T: Ref("", n.Name), Tag: pick(g.rng, []string{"", `gomacro-sql-on-delete:"SET NULL"`})})
+						tag := pick(g.rng, []string{"", `gomacro-sql-on-delete:"SET NULL"`})
+						if target == s {
+							// a field of the table's OWN id type is a key into the table itself only
+							// when the tag says so (a tree: Parent IdNode)
+							tag = strings.TrimSpace(fmt.Sprintf(`gomacro-sql-foreign:"%s" %s`, s.Name, pick(g.rng, []string{"", `gomacro-sql-on-delete:"CASCADE"`})))
+							g.c.AddFeat("sql:self-reference-by-own-id-type")
+						}
+						s.Fields = append(s.Fields, Field{Name: g.uniq("Fk"), T: Ref("", n.Name), Tag: tag})
 					}
 				}
 			}
